@@ -1,6 +1,7 @@
 package props
 
 import (
+	"github.com/caddyserver/caddy/v2"
 	"bytes"
 	"fmt"
 	"net"
@@ -89,6 +90,8 @@ type c12Sample struct {
 	Seen      []worlds.AddrSeen `json:"addresses_seen"`
 	UpHeader  string   `json:"upstream_received_header"`
 	Net       simnet.Cfg `json:"net"`
+	Layout    string   `json:"layout,omitempty"`
+	SecondConn bool    `json:"second_overlapping_client,omitempty"`
 }
 
 func init() {
@@ -115,6 +118,11 @@ func runC12(t *testing.T, e *worlds.Env, tier string) (bool, any) {
 	var upRaw *worlds.UpConnRec
 	var modelB *worlds.ConnModel
 	aborted := false
+	splitAt := 0
+	var hdr2 *PPHeader
+	var plan2 *worlds.ClientPlan
+	var model2 *worlds.ConnModel
+	failover := false
 	consumeK := 0
 	e.Run(t, func() func() bool {
 		tp := e.T
@@ -192,7 +200,28 @@ func runC12(t *testing.T, e *worlds.Env, tier string) (bool, any) {
 					e.Reg.Alias(":0", model) // the library reports ":0" for v1 UNKNOWN
 				}
 			}
+			splitAt = len(hs)
 			hs = append(hs, &worlds.AddrRec{E: e, Name: "addr", Seen: &seen})
+			// a second client with a header of its own, overlapping with the first (per-connection
+			// state of the handler kept anywhere shared shows as the other client's addresses/bytes)
+			if mode == 0 && allowed && !hdr.Unknown && !hdr.Local && tp.Prob(1, 3, "second-conn") {
+				h2 := *hdr
+				if h2.Src.IP.To4() != nil {
+					h2.Src = simnet.TCPAddr("192.0.2.78", 4343)
+				} else {
+					h2.Src = simnet.TCPAddr("2001:db8::78", 4343)
+				}
+				hdr2 = &h2
+				hb := hdr2.Encode()
+				plan2 = &worlds.ClientPlan{ID: 2, Addr: worlds.ClientAddr(2), End: worlds.EndHalfClose}
+				model2 = &worlds.ConnModel{ID: 2, Key: e.S.Seed*7 + 2, Addr: plan2.Addr.String()}
+				p2 := worlds.Stream(model2.Key, 1+tp.LogRange(0, 6000, "app-len-2"))
+				model2.App = append(append([]byte(nil), hb...), p2...)
+				model2.Pre = hb
+				plan2.App = model2.App
+				plan2.StartAt = time.Duration(tp.Choose(30, "start2-ms")) * time.Millisecond
+				e.Reg.Alias(hdr2.Src.String(), model2)
+			}
 		} else {
 			model.App = payload
 		}
@@ -223,8 +252,18 @@ func runC12(t *testing.T, e *worlds.Env, tier string) (bool, any) {
 				ups.Add("tcp", "10.1.0.2:80", 0)
 				dialsTo = append(dialsTo, "tcp/10.1.0.2:80")
 			}
+			// fail-over: an upstream in front that resets every connection right after accepting it (the
+			// header write to it fails or is lost); passive health takes it out and the retry reaches the
+			// healthy upstream, which must still get exactly one header
+			failover = mode == 1 && tp.Prob(1, 4, "failover")
+			if failover {
+				ups.Add("tcp", "10.1.0.9:80", 0)
+				sample.Send += " failover"
+			}
 			if mode == 1 {
-				ups.ScriptFor = func(string, int) *worlds.UpScript { return &worlds.UpScript{Mode: worlds.UpSink, AbortAt: -1} }
+				ups.ScriptFor = func(addr string, _ int) *worlds.UpScript {
+					return &worlds.UpScript{Mode: worlds.UpSink, AbortAt: -1, AbortOnAccept: addr == "10.1.0.9:80"}
+				}
 			} else {
 				// composition: the upstream is a second layer4 server with the receiver chain
 				modelB = &worlds.ConnModel{ID: 2, Key: model.Key, Addr: "B"}
@@ -241,6 +280,11 @@ func runC12(t *testing.T, e *worlds.Env, tier string) (bool, any) {
 				e.N.AddUpstream("tcp", "10.1.0.1:80", func(c net.Conn, _ *simnet.End, _ int) { srvB.VerifHandle(c) })
 			}
 			h := &l4proxy.Handler{Upstreams: l4proxy.UpstreamPool{&l4proxy.Upstream{Dial: dialsTo}}, ProxyProtocol: "v" + strconv.Itoa(sendVer)}
+			if failover {
+				h.Upstreams = append(l4proxy.UpstreamPool{&l4proxy.Upstream{Dial: []string{"tcp/10.1.0.9:80"}}}, h.Upstreams...)
+				h.LoadBalancing = &l4proxy.LoadBalancing{SelectionPolicy: &l4proxy.FirstSelection{}, TryDuration: caddy.Duration(2 * time.Second), TryInterval: caddy.Duration(10 * time.Millisecond)}
+				h.HealthChecks = &l4proxy.HealthChecks{Passive: &l4proxy.PassiveHealthChecks{FailDuration: caddy.Duration(10 * time.Second), MaxFails: 1}}
+			}
 			if err := h.Provision(e.Ctx); err != nil {
 				panic(err)
 			}
@@ -266,6 +310,13 @@ func runC12(t *testing.T, e *worlds.Env, tier string) (bool, any) {
 			hs = append(hs, b.Handler(&mk, sig), h)
 		}
 		routes := layer4.RouteList{layer4.VerifNewRoute(sets, hs)}
+		if mode == 0 && splitAt > 0 && len(sets) == 0 && tp.Prob(1, 2, "two-routes") {
+			// the proxy_protocol handler ends its route; what follows is a route of its own
+			// (only with an unconditional first route: behind a matcher that still waits for
+			// data the unconditional second route legitimately runs first)
+			routes = layer4.RouteList{layer4.VerifNewRoute(sets, hs[:splitAt:splitAt]), layer4.VerifNewRoute(nil, hs[splitAt:])}
+			sample.Layout = "handler ends its route"
+		}
 		plan.Chunks = e.MakeChunks(len(plan.App), 10*time.Millisecond)
 		plan.End = worlds.EndHalfClose
 		sample.ClientEnd = "half-close"
@@ -282,6 +333,12 @@ func runC12(t *testing.T, e *worlds.Env, tier string) (bool, any) {
 		w = e.NewTCPWorld(routes, 0)
 		cl = e.StartClient(w.Ln, plan, model)
 		w.Clients = append(w.Clients, cl)
+		if plan2 != nil {
+			plan2.Chunks = e.MakeChunks(len(plan2.App), 10*time.Millisecond)
+			e.Reg.Add(model2)
+			w.Clients = append(w.Clients, e.StartClient(w.Ln, plan2, model2))
+			sample.SecondConn = true
+		}
 		sample.AppLen, sample.Net = appLen, e.N.Cfg
 		return func() bool {
 			if !w.Done() {
@@ -327,6 +384,10 @@ func runC12(t *testing.T, e *worlds.Env, tier string) (bool, any) {
 			// (UNKNOWN / LOCAL headers declare no addresses: what handlers see then is
 			// left to the PROXY protocol library and not judged)
 			for _, s := range seen {
+				effSrc, effDst := effSrc, effDst
+				if hdr2 != nil && (s.Remote == hdr2.Src.String() || s.ConnRemote == hdr2.Src.String() || s.PHRemote == hdr2.Src.String()) {
+					effSrc, effDst = hdr2.Src.String(), hdr2.Dst.String() // the second client's connection
+				}
 				if s.Remote != effSrc || s.Local != effDst {
 					fail("addresses", "handler after proxy_protocol saw remote=%s local=%s; expected %s / %s (header declares=%v, peer allowed=%v)", s.Remote, s.Local, effSrc, effDst, declares, allowed)
 					return
@@ -359,6 +420,19 @@ func runC12(t *testing.T, e *worlds.Env, tier string) (bool, any) {
 			recs := ups.RecsSnapshot()
 			if len(recs) == 0 {
 				return
+			}
+			if failover {
+				bad, good := 0, 0
+				for _, r := range recs {
+					if r.Addr == "10.1.0.9:80" {
+						bad++
+					} else if len(r.Received) > 0 {
+						good++
+					}
+				}
+				if bad > 0 && good > 0 {
+					e.S.Stats["probe_failover_reached_healthy_upstream"]++
+				}
 			}
 			for _, upRaw = range recs {
 				got := upRaw.Received
